@@ -396,4 +396,50 @@ theorem effOp_kind {cfg : Cfg} {p : PState} {db : Db} {op : Op} (h : effOp cfg p
     | cleanupUploads n kept => simp only [effOpCore] at h; injection h with h; exact Or.inl ⟨rfl, h.symm⟩
     | _ => simp [effOpCore] at h
 
+/-! ## single-block requests take effect / read at one point of the schedule -/
+
+/-- a request that is one block finishes at its first scheduled step, with the result of that block on
+    the database of that moment -/
+theorem single_block_result {cfg : Cfg} {p : PState} (hsingle : ∀ db, ∃ r, (pstepT cfg p db).1 = .finished r)
+    (hnf : p.isFinished = false) (sched : List Nat) (st : Sys) (j : Nat) (hpj : st.procs[j]? = some p) (r : Result)
+    (hfin : (runSched cfg st sched).procs[j]? = some (.finished r)) :
+    ∃ a b, sched = a ++ j :: b ∧ (pstepT cfg p (runSched cfg st a).db).1 = .finished r := by
+  induction sched generalizing st with
+  | nil =>
+    rw [runSched_nil, hpj] at hfin
+    injection hfin with hfin; subst hfin; cases hnf
+  | cons i sched ih =>
+    rw [runSched_cons] at hfin
+    by_cases hij : i = j
+    · subst hij
+      obtain ⟨r0, hr0⟩ := hsingle st.db
+      have h1 := sysStep_procs_self (cfg := cfg) hpj
+      rw [hr0] at h1
+      rw [runSched_finished h1] at hfin
+      injection hfin with hfin; injection hfin with hfin; subst hfin
+      exact ⟨[], sched, rfl, hr0⟩
+    · obtain ⟨a, b, hab, hr⟩ := ih _ (by rw [sysStep_procs_ne hij]; exact hpj) hfin
+      exact ⟨i :: a, b, by rw [hab]; rfl, hr⟩
+
+/-- the database after a schedule prefix is a database of the sequential run of the whole linearisation -/
+theorem runSched_prefix_dbAt (cfg : Cfg) (st : Sys) (a b : List Nat) :
+    (runSched cfg st a).db = dbAt cfg st.db (linOf cfg st (a ++ b)) (linOf cfg st a).length := by
+  rw [runSched_db_eq_run, linOf_append]
+  unfold dbAt
+  rw [List.take_left']
+  rfl
+
+/-- a read request that is one block returns the answer `ans` of that block on one database of the
+    sequential run: the one reached when the request is first scheduled -/
+theorem single_read_at {cfg : Cfg} {p : PState} (ans : Db → Result)
+    (hstep : ∀ db, (pstepT cfg p db).1 = .finished (ans db)) (hnf : p.isFinished = false)
+    (sched : List Nat) (st : Sys) (j : Nat) (hpj : st.procs[j]? = some p) (r : Result)
+    (hfin : (runSched cfg st sched).procs[j]? = some (.finished r)) :
+    ∃ a b, sched = a ++ j :: b ∧ r = ans (dbAt cfg st.db (linOf cfg st sched) (linOf cfg st a).length) := by
+  obtain ⟨a, b, hab, hr⟩ := single_block_result (fun db => ⟨_, hstep db⟩) hnf sched st j hpj r hfin
+  rw [hstep] at hr
+  injection hr with hr
+  refine ⟨a, b, hab, ?_⟩
+  rw [← hr, runSched_prefix_dbAt cfg st a (j :: b), ← hab]
+
 end Tup.TxnLemmas
